@@ -16,7 +16,7 @@ import os
 
 import eqlmc  # noqa: F401
 from entity_query_language import (an, a, entity, set_of, let, the, infer, symbolic_mode, rule_mode, Add, alternative,
-                                   refinement)
+                                   refinement, and_)
 
 from .. import qast as Q
 from .. import worlds as W
@@ -48,7 +48,9 @@ DO = ((("p", 1), ("q", 2)), (("p", 2), ("q", 2)), (("p", 1), ("q", 1)), (("p", 2
 _o = lambda i: ("@", "DO", i)      # noqa: E731
 DH = ((("inner", _o(0)), ("n", 1)), (("inner", _o(1)), ("n", 2)), (("inner", _o(4)), ("n", 1)))
 DC = ((("a", _o(0)), ("b", _o(2))), (("a", _o(1)), ("b", _o(3))), (("a", _o(4)), ("b", _o(3))), (("a", _o(4)), ("b", _o(2))))
-WSPEC = (("DA", "Item", DA), ("DB", "Item", DB), ("DD", "Item", DD), ("DE", "Item", DE), ("DP", "Item", DP),
+DF = ((("p", 1), ("flag", True)), (("p", 2), ("flag", False)), (("p", 3), ("flag", 0)), (("p", 4), ("flag", 2)),
+      (("p", 5), ("flag", "")))
+WSPEC = (("DA", "Item", DA), ("DB", "Item", DB), ("DD", "Item", DD), ("DE", "Item", DE), ("DP", "Item", DP), ("DF", "Item", DF),
          ("DO", "Other", DO), ("DH", "Holder", DH), ("DC", "Made2", DC))
 VX = ("x", "let", "Item", "DA")
 VY = ("y", "let", "Item", "DB")
@@ -90,6 +92,9 @@ SPECS = {
     "fl_all": ("Q", "an", "setof", (XP, EL), (), (VP,)),
     # pool E: predicate-form variables without a domain (they range over the registry), in a query and in a rule
     "nd_k": "special", "nd_join": "special", "nd_rule": "special", "nd_o": "special",
+    # pool F: ONE attribute expression object of a shared variable used by several queries in different roles (as a
+    # condition, as an operand, as a selected value) over data with falsy values
+    "sh_cond": "special", "sh_val": "special", "sh_sel": "special", "sh_valne": "special",
     "iter": "special",
     "rule": "special",
     "rule_ref": "special",
@@ -101,6 +106,7 @@ POOLS = {
     "C": ("the1", "the2", "dup", "dupjoin", "iter", "rule", "rule_ref"),
     "D": ("fl_pe", "fl_e", "fl_the", "fl_pred", "fl_all"),
     "E": ("nd_k", "nd_join", "nd_rule", "nd_o"),
+    "F": ("sh_cond", "sh_val", "sh_sel", "sh_valne"),
 }
 
 
@@ -154,6 +160,15 @@ class Pool:
             self.b.env["xi"] = xi
             with symbolic_mode():
                 self.q["iter"] = an(entity(xi, xi.p >= 2))
+        if pool == "F":
+            xf = let(W.Item, self.world["DF"])
+            with symbolic_mode():
+                lvl = xf.flag                                   # one expression object, reused below
+                self.q["sh_cond"] = an(entity(xf, lvl))
+                self.q["sh_val"] = an(entity(xf, lvl == False))     # noqa: E712
+                self.q["sh_sel"] = an(set_of([xf, lvl]))
+                self.q["sh_valne"] = an(entity(xf, and_(xf.p >= 2, lvl != True)))    # noqa: E712
+            self.sh_sel = (xf, lvl)
         if pool == "E":
             two, one = inst.v(2), inst.v(1)
             with symbolic_mode():
@@ -203,6 +218,8 @@ class Pool:
         spec = SPECS[name]
         if name == "nd_join":
             return [tuple(Q.norm(r[s]) for s in self.nd_sel) for r in rows]
+        if name == "sh_sel":
+            return [tuple(Q.norm(r[s]) for s in self.sh_sel) for r in rows]
         if spec != "special" and spec[2] == "setof":
             sel = self.b.sel[spec]
             return [tuple(Q.norm(r[s]) for s in sel) for r in rows]
@@ -279,7 +296,7 @@ def same(name, got, exp):
             or (isinstance(exp, tuple) and exp and exp[0] == "value"):
         return got == exp
     spec = SPECS[name]
-    if name in ("rule", "rule_ref", "fl_pe", "fl_pred", "fl_all", "nd_rule", "nd_join"):     # one row per (parent, occurrence): multiset
+    if name in ("rule", "rule_ref", "fl_pe", "fl_pred", "fl_all", "nd_rule", "nd_join", "sh_sel"):     # one row per (parent, occurrence): multiset
         return sorted(map(repr, got)) == sorted(map(repr, exp))
     if spec == "special" or spec[2] == "entity" or name == "dupjoin":
         return got == exp if name != "dupjoin" else sorted(map(repr, got)) == sorted(map(repr, exp))
@@ -337,6 +354,12 @@ def describe(case, inst):
             lines.append(f"{name}: " + Q.up_query(spec, inst))
         elif name == "iter":
             lines.append("iter: xi = let(Item, iter(DA)); q = an(entity(xi, xi.p >= 2))")
+        elif name.startswith("sh_"):
+            lines.append({
+                "sh_cond": "xf = let(Item, DF); lvl = xf.flag   # ONE expression object\nsh_cond: an(entity(xf, lvl))",
+                "sh_val": "sh_val: an(entity(xf, lvl == False))",
+                "sh_sel": "sh_sel: an(set_of([xf, lvl]))",
+                "sh_valne": "sh_valne: an(entity(xf, and_(xf.p >= 2, lvl != True)))"}[name])
         elif name.startswith("nd_"):
             lines.append({
                 "nd_k": "nd_k: an(entity(Other(q=2)))",
